@@ -3,6 +3,7 @@
 package c02
 
 import (
+	"encoding/hex"
 	"fmt"
 	"sort"
 	"strconv"
@@ -29,7 +30,7 @@ type Mode struct {
 	Watchdog   time.Duration // every implementation call runs under this watchdog (0 = 2s)
 }
 
-type table = symboltable.SymbolTable[int, int]
+
 
 func eqInt(a, b int) bool { return a == b }
 
@@ -48,6 +49,94 @@ func HashFor(name string, cap0 int) hash.HashFunc[int] {
 	default:
 		return hash.HashFuncForInt[int](nil)
 	}
+}
+
+// hashForStr returns the hash function for string keys named in the header; "fnvstr" is the library's default
+// string hash — ONE instance per case, shared by both tables and by every call of the case.
+func hashForStr(name string, _ int) hash.HashFunc[string] {
+	switch name {
+	case "const":
+		return func(string) uint64 { return 5 }
+	case "len":
+		return func(s string) uint64 { return uint64(len(s)) }
+	case "first":
+		return func(s string) uint64 {
+			if len(s) == 0 {
+				return 0
+			}
+			return uint64(s[0])
+		}
+	default:
+		return hash.HashFuncForString[string](nil)
+	}
+}
+
+// keyCodec: how keys of type K are read from an op line, printed, and folded into the state digest.
+type keyCodec[K comparable] struct {
+	parse   func(string) K
+	show    func(K) string
+	dig     func(K) uint64
+	hashFor func(name string, cap0 int) hash.HashFunc[K]
+	dump    func(t symboltable.SymbolTable[K, int]) string
+}
+
+var intCodec = keyCodec[int]{
+	parse:   func(s string) int { v, _ := strconv.Atoi(s); return v },
+	show:    strconv.Itoa,
+	dig:     func(k int) uint64 { return uint64(k) },
+	hashFor: HashFor,
+	dump:    func(t symboltable.SymbolTable[int, int]) string { return symboltable.VerifHashDump(t) },
+}
+
+// ShowBytes renders a string key as `x` + two lower-case hex digits per byte.
+func ShowBytes(s string) string { return "x" + hex.EncodeToString([]byte(s)) }
+
+// ParseBytes is the inverse of ShowBytes (malformed input reads as the empty string).
+func ParseBytes(s string) string {
+	if !strings.HasPrefix(s, "x") {
+		return ""
+	}
+	b, err := hex.DecodeString(s[1:])
+	if err != nil {
+		return ""
+	}
+	return string(b)
+}
+
+// BytesDig is FNV-1a over the bytes of a string key (used only to fold keys into the state digest).
+func BytesDig(s string) uint64 {
+	d := uint64(fnvOffset)
+	for i := 0; i < len(s); i++ {
+		d = (d ^ uint64(s[i])) * fnvPrime
+	}
+	return d
+}
+
+var strCodec = keyCodec[string]{
+	parse:   ParseBytes,
+	show:    ShowBytes,
+	dig:     BytesDig,
+	hashFor: hashForStr,
+	dump: func(t symboltable.SymbolTable[string, int]) string {
+		s, ok := symboltable.VerifHashSlots(t)
+		if !ok {
+			return "not-a-hash-table"
+		}
+		var b strings.Builder
+		fmt.Fprintf(&b, "%s m=%d n=%d u=%d p=%d [", s.Kind, s.M, s.N, s.U, s.P)
+		for i, e := range s.Slots {
+			if i > 0 {
+				b.WriteByte(' ')
+			}
+			flag := "L"
+			if e.Deleted {
+				flag = "D"
+			}
+			fmt.Fprintf(&b, "%d:(%s,%d,%s)", e.Index, ShowBytes(e.Key), e.Val, flag)
+		}
+		b.WriteByte(']')
+		return b.String()
+	},
 }
 
 func parseLF(s string) float32 {
@@ -92,16 +181,17 @@ func MinCap(comp string) int {
 	return 31
 }
 
-func newTable(comp string, h hash.HashFunc[int], o symboltable.HashOpts) table {
+func newTable[K comparable](comp string, h hash.HashFunc[K], o symboltable.HashOpts) symboltable.SymbolTable[K, int] {
+	eqK := func(a, b K) bool { return a == b }
 	switch comp {
 	case "chain":
-		return symboltable.NewChainHashTable[int, int](h, eqInt, eqInt, o)
+		return symboltable.NewChainHashTable[K, int](h, eqK, eqInt, o)
 	case "linear":
-		return symboltable.NewLinearHashTable[int, int](h, eqInt, eqInt, o)
+		return symboltable.NewLinearHashTable[K, int](h, eqK, eqInt, o)
 	case "quadratic":
-		return symboltable.NewQuadraticHashTable[int, int](h, eqInt, eqInt, o)
+		return symboltable.NewQuadraticHashTable[K, int](h, eqK, eqInt, o)
 	case "double":
-		return symboltable.NewDoubleHashTable[int, int](h, eqInt, eqInt, o)
+		return symboltable.NewDoubleHashTable[K, int](h, eqK, eqInt, o)
 	}
 	panic("unknown component " + comp)
 }
@@ -120,15 +210,15 @@ type snapshot struct {
 	longestWalk int
 }
 
-func snap(t table) snapshot {
+func snap[K comparable](t symboltable.SymbolTable[K, int], kc *keyCodec[K]) snapshot {
 	s, _ := symboltable.VerifHashSlots(t)
 	d := uint64(fnvOffset)
 	step := func(x uint64) { d = (d ^ x) * fnvPrime }
 	sn := snapshot{m: s.M, n: s.N, u: s.U, p: s.P, slotsLenOK: s.Len == s.M}
-	seen := map[int]bool{}
+	seen := map[K]bool{}
 	for _, e := range s.Slots {
 		step(uint64(e.Index))
-		step(uint64(e.Key))
+		step(kc.dig(e.Key))
 		step(uint64(e.Val))
 		if e.Deleted {
 			step(1)
@@ -138,7 +228,7 @@ func snap(t table) snapshot {
 		}
 		sn.used++
 		if seen[e.Key] {
-			sn.consistent = fmt.Sprintf("key %d occupies two slots", e.Key)
+			sn.consistent = fmt.Sprintf("key %s occupies two slots", kc.show(e.Key))
 		}
 		seen[e.Key] = true
 	}
@@ -160,16 +250,26 @@ func (s snapshot) String() string {
 	return fmt.Sprintf("m=%d n=%d u=%d p=%d h=%016x", s.m, s.n, s.u, s.p, s.digest)
 }
 
-func showPairs(m map[int]int, got [][2]int) string {
+type pair struct {
+	k string // rendered key
+	v int
+}
+
+func showPairs(got []pair, numeric bool) string {
 	sort.Slice(got, func(i, j int) bool {
-		if got[i][0] != got[j][0] {
-			return got[i][0] < got[j][0]
+		if got[i].k != got[j].k {
+			if numeric {
+				a, _ := strconv.Atoi(got[i].k)
+				b, _ := strconv.Atoi(got[j].k)
+				return a < b
+			}
+			return got[i].k < got[j].k
 		}
-		return got[i][1] < got[j][1]
+		return got[i].v < got[j].v
 	})
 	ss := make([]string, len(got))
 	for i, e := range got {
-		ss[i] = fmt.Sprintf("(%d,%d)", e[0], e[1])
+		ss[i] = fmt.Sprintf("(%s,%d)", e.k, e.v)
 	}
 	return "[" + strings.Join(ss, " ") + "]"
 }
@@ -184,8 +284,20 @@ func optInt(v int, ok bool) string {
 // Exec runs one case with the C02 checks.
 func Exec(c hx.Case) hx.Result { return ExecMode(c, Mode{}) }
 
-// ExecMode runs one case on the real tables and on a builtin-map oracle.
+// ExecMode runs one case: a call history of hash functions (comp=hashfn), or a history on the real tables
+// with int keys or (keys=str) string keys, each against its oracle.
 func ExecMode(c hx.Case, mode Mode) hx.Result {
+	if hx.HeaderGet(c.Header, "comp") == "hashfn" {
+		return execHashFn(c)
+	}
+	if hx.HeaderGet(c.Header, "keys") == "str" {
+		return execTables(c, mode, &strCodec)
+	}
+	return execTables(c, mode, &intCodec)
+}
+
+// execTables runs one case on the real tables and on a builtin-map oracle.
+func execTables[K comparable](c hx.Case, mode Mode, kc *keyCodec[K]) hx.Result {
 	if mode.Watchdog == 0 {
 		mode.Watchdog = 2 * time.Second
 	}
@@ -199,7 +311,8 @@ func ExecMode(c hx.Case, mode Mode) hx.Result {
 	if effCap == 0 {
 		effCap = MinCap(comp)
 	}
-	h := HashFor(hname, effCap)
+	h := kc.hashFor(hname, effCap)
+	_, numeric := any(*new(K)).(int)
 
 	res := hx.Result{BadOp: -1}
 	bad := func(i int, format string, a ...any) {
@@ -209,9 +322,12 @@ func ExecMode(c hx.Case, mode Mode) hx.Result {
 		}
 	}
 	tags := map[string]bool{"comp=" + comp: true, "hash=" + hname: true}
+	if !numeric {
+		tags["keys=str"] = true
+	}
 
 	symboltable.VerifSetShuffleSeed(seed)
-	var tabs [2]table
+	var tabs [2]symboltable.SymbolTable[K, int]
 	if kind := hx.Try(func() { tabs[0] = newTable(comp, h, opts); tabs[1] = newTable(comp, h, opts) }); kind != "" {
 		// the constructor rejected the options: every op prints panic (the Model does the same)
 		// (documented behaviour for a capacity below the minimum / not prime / not a power of two;
@@ -225,9 +341,10 @@ func ExecMode(c hx.Case, mode Mode) hx.Result {
 		res.Tags = []string{"constructor-rejects-options"}
 		return res
 	}
-	oracle := [2]map[int]int{{}, {}}
-	deleted := [2]map[int]bool{{}, {}} // keys deleted at least once and currently absent
+	oracle := [2]map[K]int{{}, {}}
+	deleted := [2]map[K]bool{{}, {}} // keys deleted at least once and currently absent
 	longWalk, resized := false, false
+	var zeroKeyFirst, putSeen bool
 
 	for i, op := range c.Ops {
 		f := strings.Fields(op)
@@ -241,6 +358,13 @@ func ExecMode(c hx.Case, mode Mode) hx.Result {
 			f[0] = f[0][2:]
 		}
 		t, orc := tabs[b], oracle[b]
+		key := func() K {
+			if len(f) > 1 {
+				return kc.parse(f[1])
+			}
+			var z K
+			return z
+		}
 		arg := func(j int) int {
 			if j < len(f) {
 				v, _ := strconv.Atoi(f[j])
@@ -252,11 +376,16 @@ func ExecMode(c hx.Case, mode Mode) hx.Result {
 		before := snapshot{}
 		mutating := f[0] == "put" || f[0] == "delete" || f[0] == "deleteall"
 		if mutating {
-			before = snap(t)
+			before = snap(t, kc)
+		}
+		if f[0] == "put" && !putSeen {
+			putSeen = true
+			var z K
+			zeroKeyFirst = key() == z
 		}
 		// probe bound (C03) and walk-length tag
 		if f[0] == "put" || f[0] == "get" || f[0] == "delete" {
-			g, fd := safeProbes(t, arg(1), mode.Watchdog)
+			g, fd := safeProbes(t, key(), mode.Watchdog)
 			if g >= 3 || fd >= 3 {
 				longWalk = true
 			}
@@ -266,7 +395,7 @@ func ExecMode(c hx.Case, mode Mode) hx.Result {
 			// Put is always executed (it may re-hash before it probes).
 			if HangsObserved > 0 && ((f[0] == "get" && g == -1) || (f[0] == "delete" && fd == -1)) {
 				res.Outs = append(res.Outs, "hang")
-				bad(i, "%s would not return: its probe walk does not stop within %d steps", op, 4*before.mOr(t)+4)
+				bad(i, "%s would not return: its probe walk does not stop within %d steps", op, 4*mOr(before, t)+4)
 				tags["hang"] = true
 				tags["hang-predicted"] = true
 				break
@@ -278,7 +407,7 @@ func ExecMode(c hx.Case, mode Mode) hx.Result {
 					bound = st.N
 				}
 				if g < 0 || fd < 0 || g > bound || fd > bound {
-					bad(i, "%s %d: probe walk get=%d find=%d exceeds the bound %d (m=%d n=%d u=%d)", f[0], arg(1), g, fd, bound, st.M, st.N, st.U)
+					bad(i, "%s %s: probe walk get=%d find=%d exceeds the bound %d (m=%d n=%d u=%d)", f[0], kc.show(key()), g, fd, bound, st.M, st.N, st.U)
 				}
 			}
 		}
@@ -287,7 +416,7 @@ func ExecMode(c hx.Case, mode Mode) hx.Result {
 			kind = hx.Try(func() {
 				switch f[0] {
 				case "put":
-					k, v := arg(1), arg(2)
+					k, v := key(), arg(2)
 					t.Put(k, v)
 					if deleted[b][k] {
 						tags["reinsert-deleted-key"] = true
@@ -296,20 +425,20 @@ func ExecMode(c hx.Case, mode Mode) hx.Result {
 					orc[k] = v
 					out = "ok"
 				case "get":
-					k := arg(1)
+					k := key()
 					v, ok := t.Get(k)
 					out = "ok " + optInt(v, ok)
 					want, wok := orc[k]
 					if ok != wok || (ok && v != want) {
-						bad(i, "get %d = (%d,%v), the map holds (%d,%v)", k, v, ok, want, wok)
+						bad(i, "get %s = (%d,%v), the map holds (%d,%v)", kc.show(k), v, ok, want, wok)
 					}
 				case "delete":
-					k := arg(1)
+					k := key()
 					v, ok := t.Delete(k)
 					out = "ok " + optInt(v, ok)
 					want, wok := orc[k]
 					if ok != wok || (ok && v != want) {
-						bad(i, "delete %d = (%d,%v), the map holds (%d,%v)", k, v, ok, want, wok)
+						bad(i, "delete %s = (%d,%v), the map holds (%d,%v)", kc.show(k), v, ok, want, wok)
 					}
 					if wok {
 						deleted[b][k] = true
@@ -334,22 +463,24 @@ func ExecMode(c hx.Case, mode Mode) hx.Result {
 						bad(i, "isempty = %v, the map holds %d pairs", e, len(orc))
 					}
 				case "all":
-					var got [][2]int
+					var got []pair
+					var keys []K
 					for k, v := range t.All() {
-						got = append(got, [2]int{k, v})
+						got = append(got, pair{kc.show(k), v})
+						keys = append(keys, k)
 					}
-					out = "ok " + showPairs(orc, got)
 					if len(got) != len(orc) {
 						bad(i, "all yields %d pairs, the map holds %d", len(got), len(orc))
 					} else {
-						seen := map[int]bool{}
-						for _, e := range got {
-							if w, ok := orc[e[0]]; !ok || w != e[1] || seen[e[0]] {
-								bad(i, "all yields (%d,%d) which the map does not hold (or yields it twice)", e[0], e[1])
+						seen := map[K]bool{}
+						for j, e := range got {
+							if w, ok := orc[keys[j]]; !ok || w != e.v || seen[keys[j]] {
+								bad(i, "all yields (%s,%d) which the map does not hold (or yields it twice)", e.k, e.v)
 							}
-							seen[e[0]] = true
+							seen[keys[j]] = true
 						}
 					}
+					out = "ok " + showPairs(got, numeric)
 				case "equal":
 					e := tabs[0].Equal(tabs[1])
 					out = "ok " + strconv.FormatBool(e)
@@ -363,9 +494,9 @@ func ExecMode(c hx.Case, mode Mode) hx.Result {
 						bad(i, "equal = %v, the two maps say %v", e, want)
 					}
 				case "dump":
-					out = "ok " + symboltable.VerifHashDump(t)
+					out = "ok " + kc.dump(t)
 				case "probes":
-					g, fd := safeProbes(t, arg(1), mode.Watchdog)
+					g, fd := safeProbes(t, key(), mode.Watchdog)
 					out = fmt.Sprintf("ok get=%d find=%d", g, fd)
 				}
 			})
@@ -384,7 +515,7 @@ func ExecMode(c hx.Case, mode Mode) hx.Result {
 			break
 		}
 		if mutating {
-			after := snap(t)
+			after := snap(t, kc)
 			out += " | " + after.String()
 			if after.consistent != "" {
 				bad(i, "after %s: %s", op, after.consistent)
@@ -419,13 +550,13 @@ func ExecMode(c hx.Case, mode Mode) hx.Result {
 				for b := 0; b < 2; b++ {
 					for k, v := range oracle[b] {
 						if got, ok := tabs[b].Get(k); !ok || got != v {
-							bad(len(c.Ops)-1, "final sweep: get %d = (%d,%v), the map holds %d", k, got, ok, v)
+							bad(len(c.Ops)-1, "final sweep: get %s = (%d,%v), the map holds %d", kc.show(k), got, ok, v)
 							return
 						}
 					}
 					for k := range deleted[b] {
 						if got, ok := tabs[b].Get(k); ok {
-							bad(len(c.Ops)-1, "final sweep: deleted key %d is found again with value %d", k, got)
+							bad(len(c.Ops)-1, "final sweep: deleted key %s is found again with value %d", kc.show(k), got)
 							return
 						}
 					}
@@ -438,6 +569,9 @@ func ExecMode(c hx.Case, mode Mode) hx.Result {
 	}
 	if longWalk {
 		tags["walk>=3"] = true
+	}
+	if zeroKeyFirst && (hname == "fnv" || hname == "fnvstr") {
+		tags["default-hash-zero-key-first"] = true
 	}
 	res.Nontrivial = longWalk || resized
 	for t := range tags {
@@ -452,7 +586,7 @@ var HangsObserved int
 
 // safeProbes measures the probe walks of key through the hook; a walk that panics (an index outside the
 // allocated slots) or does not come back counts as -1.
-func safeProbes(t table, key int, watchdog time.Duration) (g, fd int) {
+func safeProbes[K comparable](t symboltable.SymbolTable[K, int], key K, watchdog time.Duration) (g, fd int) {
 	g, fd = -1, -1
 	hx.WithTimeout(watchdog, func() {
 		hx.Try(func() {
@@ -462,6 +596,15 @@ func safeProbes(t table, key int, watchdog time.Duration) (g, fd int) {
 		})
 	})
 	return
+}
+
+// mOr returns the capacity recorded in a snapshot, or reads it from the table when the snapshot is empty.
+func mOr[K comparable](s snapshot, t symboltable.SymbolTable[K, int]) int {
+	if s.m > 0 {
+		return s.m
+	}
+	st, _ := symboltable.VerifHashSlots(t)
+	return st.M
 }
 
 // Limiter bounds a run: wall-clock budget per tier (much shorter when bin/check is searching for a witness
@@ -488,15 +631,6 @@ func (l *Limiter) Search() bool { return l.limit <= 20*time.Second }
 func (l *Limiter) Stop(run *hx.Run) bool {
 	v := len(run.Stats.Violations)
 	return time.Since(l.start) > l.limit || (HangsObserved > 0 && v > 0) || v >= 6
-}
-
-// mOr returns the capacity recorded in a snapshot, or reads it from the table when the snapshot is empty.
-func (s snapshot) mOr(t table) int {
-	if s.m > 0 {
-		return s.m
-	}
-	st, _ := symboltable.VerifHashSlots(t)
-	return st.M
 }
 
 // ---------------------------------------------------------------- generators
@@ -774,6 +908,9 @@ func Main(run *hx.Run) {
 	run.Stats.Rule = Rule
 	lim := NewLimiter(run)
 	runCorpus(run, "C02", Exec)
+	if mainHash(run, lim) {
+		return
+	}
 	for _, comp := range Comps {
 		r := run.R.Fork(comp)
 		do := func(c hx.Case) bool {
